@@ -758,11 +758,14 @@ class Saver:
 
                 for chunk in chunks:
                     new_f = self.save(chunk=chunk, chunk_i=chunk_i, executor=executor)
-                    for f in pending:
-                        if f.done() and f.exception() is not None:
+                    # Look at each future once: one that finishes between two polls
+                    # must not be dropped without its exception being looked at
+                    done = [f for f in pending if f.done()]
+                    for f in done:
+                        if f.exception() is not None:
                             # A chunk write failed on the executor
                             raise f.exception()
-                    pending = [f for f in pending if not f.done()]
+                    pending = [f for f in pending if f not in done]
                     if new_f is not None:
                         pending += [new_f]
                     chunk_i += 1
